@@ -105,12 +105,13 @@ theorem not_trWindow_of_nojob {s : St} (h : s.job = none) : ¬ TrWindow s := by
 theorem not_trWindow_of_kind {s : St} {j : Job} (hj : s.job = some j) (hk : j.kind ≠ .tr) : ¬ TrWindow s := by
   unfold TrWindow; rw [hj]; exact fun h => hk h.1
 
-theorem not_trWindow_of_bc {s : St} {j : Job} (hj : s.job = some j) (hb : j.pc.beforeCommit = true) :
-    ¬ TrWindow s := by
+theorem not_trWindow_of_bc {s : St} {j : Job} (hj : s.job = some j) (hb : j.pc.beforeCommit = true)
+    (hl : s.limbo = none) : ¬ TrWindow s := by
   unfold TrWindow; rw [hj]
   intro h
-  have h2 : j.pc.beforeCommit = false := h.2
-  rw [hb] at h2; cases h2
+  rcases h.2 with h2 | h2
+  · rw [hb] at h2; cases h2
+  · rw [hl] at h2; cases h2
 
 theorem seqHi_le_of_not_window {s s' : St} (h : ¬ TrWindow s) (h' : ¬ TrWindow s') (hq : s.seq ≤ s'.seq) :
     seqHi s ≤ seqHi s' := by
@@ -119,26 +120,26 @@ theorem seqHi_le_of_not_window {s s' : St} (h : ¬ TrWindow s) (h' : ¬ TrWindow
 /-- a step of the job that keeps kind, `tr` and `db.seq`, and does not go back behind the commit -/
 theorem seqHi_le_of_job {s s' : St} {j j' : Job} (hj : s.job = some j) (hj' : s'.job = some j')
     (htr : s'.tr = s.tr) (hseq : s'.seq = s.seq) (hk : j'.kind = j.kind)
-    (hpc : j'.pc.beforeCommit = true → j.pc.beforeCommit = true) (hcap : s.seq ≤ sqCap s j) :
+    (hpc : j'.pc.beforeCommit = true → j.pc.beforeCommit = true) (hcap : s.seq ≤ sqCap s j)
+    (hl : s'.limbo = s.limbo := by rfl) :
     seqHi s ≤ seqHi s' := by
   have hc : sqCap s' j' = sqCap s j := by unfold sqCap; rw [hk, htr, hseq]
   unfold seqHi
   rw [hj, hj']
-  simp only
+  simp only [hl, hc, hseq]
   cases hb' : j'.pc.beforeCommit with
   | true =>
     rw [hpc hb']
-    simp only [Bool.true_eq_false, if_false, hseq, Nat.le_refl]
+    exact Nat.le_refl _
   | false =>
-    simp only [if_true]
-    rw [hc]
+    simp only [true_or, if_true]
     split
     · exact Nat.le_refl _
     · exact hcap
 
 theorem seqHi_post {s : St} {j : Job} (hj : s.job = some j) (hb : j.pc.beforeCommit = false) :
     seqHi s = sqCap s j := by
-  unfold seqHi; rw [hj]; simp only [hb, if_true]
+  unfold seqHi; rw [hj]; simp only [hb, true_or, if_true]
 
 theorem ViewBounds.all {cfg : Cfg} {s : St} {d : Disk} (h : ViewBounds cfg s d) :
     AllViews cfg d fun v => v.sq ≤ seqHi s ∧ v.nf ≤ s.nextFile ∧ (s.phase = .running → v.jn ≤ s.jcur) := by
